@@ -16,9 +16,9 @@ theorem validVersion_display_ne (v : Version) (h : validVersion v = true) : v.di
   have hb := ((VersionA.ok_iff _).1 h.1).1
   rw [← versionAOf_str]
   intro he
-  have : (versionAOf v).body = [] := by
-    simp only [VersionA.str] at he
-    exact (List.append_eq_nil_iff.1 he).2
+  have : (versionAOf v).first = [] := by
+    rw [VersionA.str_eq] at he
+    exact (List.append_eq_nil_iff.1 he).1
   simp [this, isIdent] at hb
 
 /-- the record of the RELATION node of a well-formed relation is its `view` -/
